@@ -238,10 +238,10 @@ def run(ck, ix, tier):
             args = [norm(x) for x in c.args]
             tgt = getattr(c, "_parent", None)
             same_var = isinstance(tgt, ast.Assign) and len(args) == 4 and norm(tgt.targets[0]) == args[3]
-            ck.check(args[:3] == [a, b, "self"] and same_var and "_active_ctx" in norm(c.func), "G-PROV", "ctx_convert|transform-chained", fi.loc(c),
+            ck.check(args[:3] == [a, b, "self"] and same_var and _sh.rnorm(c.func, fn) == "self._active_ctx.transform", "G-PROV", "ctx_convert|transform-chained", fi.loc(c),
                      "each step transforms the running value from a to b through the active chain",
                      f"`{norm(tgt) if tgt is not None else norm(c)}` does not chain the running value through transform({a}, {b}, self, value)")
-    active = _sh.guard_edges(cfg, lambda a_: norm(a_) == "self._active_ctx", want=True)
+    active = _sh.guard_edges(cfg, lambda a_: _sh.rnorm(a_, fn) == "self._active_ctx", want=True)      # possibly through a local alias of the chain
     spn = nodes_with(cfg, lambda x: isinstance(x, ast.Call) and call_name(x) == "find_shortest_path")
     ck.check(bool(active) and _sh.reachable_without(cfg, live(cfg, spn), active) is None, "G-DOM", "ctx_convert|rules-only-with-active-contexts", fi.loc(), "rules are only consulted while contexts are active", "the rule graph is searched although no context is active (the active-context test is gone)")
     # delegation (shared with C01): every normal exit through super()._convert
